@@ -1372,7 +1372,9 @@ func (rl *Shell) viCharSearch() {
 	vii := rl.Iterations.Get()
 
 	for i := 1; i <= vii; i++ {
-		rl.viFindChar(forward, skip)
+		if aborted := rl.viFindChar(forward, skip); aborted {
+			break
+		}
 	}
 }
 
@@ -1421,7 +1423,9 @@ func (rl *Shell) viFindNextChar() {
 	vii := rl.Iterations.Get()
 
 	for i := 1; i <= vii; i++ {
-		rl.viFindChar(true, false)
+		if aborted := rl.viFindChar(true, false); aborted {
+			break
+		}
 	}
 }
 
@@ -1430,7 +1434,9 @@ func (rl *Shell) viFindNextCharSkip() {
 	vii := rl.Iterations.Get()
 
 	for i := 1; i <= vii; i++ {
-		rl.viFindChar(true, true)
+		if aborted := rl.viFindChar(true, true); aborted {
+			break
+		}
 	}
 }
 
@@ -1439,7 +1445,9 @@ func (rl *Shell) viFindPrevChar() {
 	vii := rl.Iterations.Get()
 
 	for i := 1; i <= vii; i++ {
-		rl.viFindChar(false, false)
+		if aborted := rl.viFindChar(false, false); aborted {
+			break
+		}
 	}
 }
 
@@ -1448,11 +1456,13 @@ func (rl *Shell) viFindPrevCharSkip() {
 	vii := rl.Iterations.Get()
 
 	for i := 1; i <= vii; i++ {
-		rl.viFindChar(false, true)
+		if aborted := rl.viFindChar(false, true); aborted {
+			break
+		}
 	}
 }
 
-func (rl *Shell) viFindChar(forward, skip bool) {
+func (rl *Shell) viFindChar(forward, skip bool) (aborted bool) {
 	rl.History.SkipSave()
 
 	// Read the argument key to use as a pattern to search
@@ -1461,7 +1471,7 @@ func (rl *Shell) viFindChar(forward, skip bool) {
 
 	char, esc := rl.Keys.ReadKey()
 	if esc {
-		return
+		return true
 	}
 
 	times := rl.Iterations.Get()
@@ -1481,6 +1491,8 @@ func (rl *Shell) viFindChar(forward, skip bool) {
 
 		rl.cursor.Set(pos)
 	}
+
+	return false
 }
 
 // Start a non-incremental search buffer, finds the first forward
